@@ -257,10 +257,46 @@ def generate(repo: Path | None = None):
     return t
 
 
+PINNED = Path(__file__).with_name("steps_pinned.json")
+
+
+def rows(t):
+    """the tables as one flat dict `table:row-name -> value` (JSON-normalised)"""
+    import json
+
+    out = {}
+    for table, items in t.items():
+        for it in items:
+            out[f"{table}:{it[0]}"] = json.loads(json.dumps(it[1:]))
+    return out
+
+
+def write_pinned():
+    """python-readable copy of the pinned tables (same content as Model/StepsSource.lean; refresh both together from a clean HEAD)"""
+    import json
+
+    PINNED.write_text(json.dumps(rows(read_tables()), indent=0, sort_keys=True))
+
+
+def diff_rows(repo: Path | None = None):
+    """names of the table rows in which the working tree differs from the pinned copy - used to aim the failing-input search at
+    the function whose transcription went stale"""
+    import json
+
+    try:
+        cur = rows(read_tables(repo))
+    except Exception:  # noqa: BLE001
+        return ["untranslatable"]
+    pinned = json.loads(PINNED.read_text())
+    return sorted(k for k in set(cur) | set(pinned) if cur.get(k) != pinned.get(k))
+
+
 if __name__ == "__main__":
     import sys
 
-    if "--model" in sys.argv:
+    if "--pin" in sys.argv:
+        write_pinned()
+    elif "--model" in sys.argv:
         print(render_model(read_tables()))
     else:
         import json
